@@ -129,7 +129,7 @@ func TestMakeSeeds(t *testing.T) {
 		s.block(s.withdraw(id, 0, 0, initial))
 		s.write(t, dir, "fixed-fund-negative.json", "PROPOSAL_FUND with value -5 by a second account, cancel, proposer withdraws exactly its contribution")
 	}
-	// negative withdrawal naming another account as beneficiary
+	// (fixed d01f7bb) negative withdrawal naming another account as beneficiary
 	{
 		s := newSeed(seedParams("withdraw-negative"), "withdraw-negative")
 		s.block()
@@ -139,9 +139,9 @@ func TestMakeSeeds(t *testing.T) {
 		s.block()
 		s.block(s.withdraw(id, 0, 2, big.NewInt(-1000))) // h=5 > deadline, goal missed
 		s.block(s.withdraw(id, 0, 0, new(big.Int).Add(initial, big.NewInt(1000))))
-		s.write(t, dir, "kf-withdraw-negative.json", "goal missed; the proposer withdraws -1000 with another user as beneficiary, then withdraws its contribution + 1000")
+		s.write(t, dir, "fixed-withdraw-negative.json", "goal missed; the proposer withdraws -1000 with another user as beneficiary, then withdraws its contribution + 1000")
 	}
-	// the fail threshold met exactly: 33% no with pass percentage 67
+	// (fixed 8fa5917) the fail threshold met exactly: 33% no with pass percentage 67
 	{
 		p := seedParams("tally-rounding")
 		p.ValPower = []int64{1650000, 1650000, 1700000}
@@ -157,9 +157,9 @@ func TestMakeSeeds(t *testing.T) {
 		s.block(s.vote(id, 0, no))
 		s.block(s.vote(id, 1, yes), s.vote(id, 2, yes))
 		s.block()
-		s.write(t, dir, "kf-tally-rounding.json", "validators 33/33/34 percent, pass percentage 67: one 33% validator votes no; the other two voting yes reach 67% exactly")
+		s.write(t, dir, "fixed-tally-rounding.json", "validators 33/33/34 percent, pass percentage 67: one 33% validator votes no; the other two voting yes reach 67% exactly")
 	}
-	// two proposals decided in one block are finalised in one block: the second keeps its fund records
+	// (fixed 18b310f) two proposals decided in one block are finalised in one block: the second kept its fund records
 	{
 		s := newSeed(seedParams("two-finalised"), "two-finalised")
 		s.block()
@@ -171,7 +171,7 @@ func TestMakeSeeds(t *testing.T) {
 		s.block(s.vote(idA, 0, yes), s.vote(idA, 1, yes), s.vote(idA, 2, yes), s.vote(idB, 0, yes), s.vote(idB, 1, yes), s.vote(idB, 2, yes))
 		s.block()
 		s.block()
-		s.write(t, dir, "kf-two-finalised-one-block.json", "two proposals pass in block 5 and are finalised together in block 6")
+		s.write(t, dir, "fixed-two-finalised-one-block.json", "two proposals pass in block 5 and are finalised together in block 6")
 	}
 	// regression scenarios (must pass; they make the mutants' behaviour reachable in one replay)
 	{
